@@ -158,3 +158,36 @@ func VerifH_ClientNextRPCAfterRemoteEnd() {
 	vrt.Cover("client-remote-end-probe")
 	conn.Close()
 }
+
+// VerifH_ProtocolErrorClosesConn: the peer sends a packet that violates the protocol for the
+// active stream (an invoke on an existing stream, or an unknown non-control kind). The
+// stream fails and - because the reader cannot go on - the connection is closed (reported
+// closed, transport closed once, later calls fail at once, nothing left behind): it is
+// never left open without a reader.
+func VerifH_ProtocolErrorClosesConn() {
+	tr := &hx.Transport{}
+	conn := NewWithOptions(tr, Options{Manager: drpcmanager.Options{SoftCancel: vrt.Bool("soft")}})
+	enc := hx.ByteEnc{}
+	st, err := conn.NewStream(hx.NewCtx(), "rpc", enc)
+	vrt.Assert(err == nil, "the call starts")
+	var rerr error
+	rdone := false
+	go func() { var out []byte; rerr = st.MsgRecv(&out, enc); rdone = true }()
+	vrt.Quiesce()
+	if vrt.Bool("invokeOnExisting") {
+		tr.Feed(hx.Pkt(drpcwire.KindInvoke, 1, 1, false, []byte("x")))
+	} else {
+		k := vrt.U8("kind")
+		vrt.Assume(k == 0 || (k >= 8 && k < 64))
+		tr.Feed(hx.Pkt(drpcwire.Kind(k), 1, 1, false, nil))
+	}
+	vrt.Quiesce()
+	vrt.Assert(rdone && rerr != nil, "the pending receive fails")
+	vrt.Assert(hx.IsClosedCh(conn.Closed()), "a protocol violation by the peer closes the connection")
+	vrt.Assert(tr.Closes == 1, "the transport is closed exactly once")
+	in := []byte{1}
+	var out []byte
+	vrt.Assert(conn.Invoke(hx.NewCtx(), "next", enc, &in, &out) != nil, "later calls fail instead of hanging")
+	vrt.Assert(vrt.Unfinished() == 0, "no goroutine is left behind")
+	vrt.Cover("protocol-error-closes-end")
+}
